@@ -191,7 +191,9 @@ fn floor_boundary(s: &str, mut i: usize) -> usize {
     i
 }
 
-fn gen_content(rng: &mut SmallRng, content: Content, n: usize) -> Vec<String> {
+/// `small` (Miri runs) shortens the long strings.
+fn gen_content(rng: &mut SmallRng, content: Content, n: usize, small: bool) -> Vec<String> {
+    let maxp: usize = if small { 40 } else { 300 };
     let mut v: Vec<String> = Vec::with_capacity(n);
     match content {
         Content::AllEmpty => {
@@ -203,22 +205,22 @@ fn gen_content(rng: &mut SmallRng, content: Content, n: usize) -> Vec<String> {
             // a chain in which each string keeps a prefix of 0..=300 bytes of
             // the previous one
             let alpha: &[char] = if rng.random_bool(0.5) { &['a', 'b'] } else { &['a', 'b', 'c', 'é', '€'] };
-            let mut cur = rand_chars(rng, 300, alpha);
+            let mut cur = rand_chars(rng, maxp, alpha);
             for _ in 0..n {
                 let keep = match rng.random_range(0..10) {
                     0 => 0,
                     1 => cur.len(),
                     2 => cur.len().saturating_sub(1),
-                    3 => 300.min(cur.len()),
-                    _ => rng.random_range(0..=cur.len().min(300)),
+                    3 => maxp.min(cur.len()),
+                    _ => rng.random_range(0..=cur.len().min(maxp)),
                 };
                 let keep = floor_boundary(&cur, keep);
-                let tail = rng.random_range(0..20);
+                let tail = rng.random_range(0..if small { 6 } else { 20 });
                 let mut s = cur[..keep].to_string();
                 s.push_str(&rand_chars(rng, tail, alpha));
                 if rng.random_bool(0.2) {
                     // regrow so that long prefixes stay available
-                    let l = 300usize.saturating_sub(s.chars().count());
+                    let l = maxp.saturating_sub(s.chars().count());
                     s.push_str(&rand_chars(rng, l, alpha));
                 }
                 v.push(s.clone());
@@ -265,7 +267,7 @@ fn gen_content(rng: &mut SmallRng, content: Content, n: usize) -> Vec<String> {
         Content::LongHeads => {
             // long strings everywhere (block heads are copied verbatim)
             for _ in 0..n {
-                let l = [0usize, 1, 126, 127, 128, 129, 255, 256, 1000][rng.random_range(0..9)];
+                let l = [0usize, 1, 127, 128, 129, 126, 255, 256, 1000][rng.random_range(0..if small { 5 } else { 9 })];
                 let mut s = rand_chars(rng, 2, &['a', 'b', 'c']);
                 s.push_str(&"x".repeat(l));
                 let t = rng.random_range(0..3);
@@ -327,11 +329,16 @@ fn build(c: &mut Case, model: &[String], k: usize, via_extend: bool) -> Option<R
 
 // ---------------------------------------------------------------- checks
 
-/// Walks an `Iter` from position `j` and compares items and hints.
-fn check_iter_from(c: &mut Case, op: &str, call: &str, it: &mut dyn ExactSizeIterator<Item = String>, model: &[String], k: usize, j: usize) -> bool {
+/// Walks an `Iter` from position `j` and compares items and hints; stops
+/// after `limit` items (usize::MAX: walk to the end and require the end).
+fn check_iter_from(c: &mut Case, op: &str, call: &str, it: &mut dyn ExactSizeIterator<Item = String>, model: &[String], k: usize, j: usize, limit: usize) -> bool {
     let n = model.len();
     let mut i = j;
     loop {
+        if i - j >= limit {
+            c.tick((i - j) as u64);
+            return true;
+        }
         let want_left = n - i;
         let l = it.len();
         let sh = it.size_hint();
@@ -375,10 +382,14 @@ fn check_iter_from(c: &mut Case, op: &str, call: &str, it: &mut dyn ExactSizeIte
 }
 
 /// Same for a lender (`Lend`, or `into_lender`).
-fn check_lend_from<'a>(c: &mut Case, op: &str, call: &str, mut it: sux::dict::rear_coded_list::Lend<'a, Box<[u8]>, Box<[usize]>>, model: &[String], k: usize, j: usize) -> bool {
+fn check_lend_from<'a>(c: &mut Case, op: &str, call: &str, mut it: sux::dict::rear_coded_list::Lend<'a, Box<[u8]>, Box<[usize]>>, model: &[String], k: usize, j: usize, limit: usize) -> bool {
     let n = model.len();
     let mut i = j;
     loop {
+        if i - j >= limit {
+            c.tick((i - j) as u64);
+            return true;
+        }
         let want_left = n - i;
         let l = ExactSizeLender::len(&it);
         let sh = Lender::size_hint(&it);
@@ -582,24 +593,24 @@ fn check_list(c: &mut Case, model: &[String], k: usize, o: &Opts) {
     if n > 0 {
         if let Err(m) = catch(|| {
             let mut it = l.iter();
-            check_iter_from(c, "iter", "iter()", &mut it, model, k, 0);
+            check_iter_from(c, "iter", "iter()", &mut it, model, k, 0, usize::MAX);
         }) {
             c.fail("iter", "panic", &m, &format!("iter() panicked; {}", ctx_at(model, k, 0)));
         }
         if let Err(m) = catch(|| {
             let mut it = l.into_iter();
-            check_iter_from(c, "into_iter", "(&list).into_iter()", &mut it, model, k, 0);
+            check_iter_from(c, "into_iter", "(&list).into_iter()", &mut it, model, k, 0, usize::MAX);
         }) {
             c.fail("into_iter", "panic", &m, &format!("(&list).into_iter() panicked; {}", ctx_at(model, k, 0)));
         }
         if let Err(m) = catch(|| {
-            check_lend_from(c, "lend", "lend()", l.lend(), model, k, 0);
+            check_lend_from(c, "lend", "lend()", l.lend(), model, k, 0, usize::MAX);
         }) {
             c.fail("lend", "panic", &m, &format!("lend() panicked; {}", ctx_at(model, k, 0)));
         }
     }
     if let Err(m) = catch(|| {
-        check_lend_from(c, "into_lender", "(&list).into_lender()", l.into_lender(), model, k, 0);
+        check_lend_from(c, "into_lender", "(&list).into_lender()", l.into_lender(), model, k, 0, usize::MAX);
     }) {
         c.fail("into_lender", "panic", &m, &format!("(&list).into_lender() panicked; {}", ctx_at(model, k, 0)));
     }
@@ -608,45 +619,71 @@ fn check_list(c: &mut Case, model: &[String], k: usize, o: &Opts) {
     let starts: Vec<usize> = if o.all_starts || n <= 64 {
         (0..=n).collect()
     } else {
-        let mut s: Vec<usize> = (0..=(2 * k + 1).min(n)).collect();
-        s.extend(n.saturating_sub(2 * k + 1)..=n);
+        let mut s: Vec<usize> = (0..=66.min(n)).collect();
+        s.extend(n.saturating_sub(66)..=n);
+        let nb = n / k;
+        let mut blocks: Vec<usize> = vec![1, 2, nb.saturating_sub(1), nb];
         for _ in 0..40 {
-            let b = c.rng().random_range(0..=n / k);
-            for d in [0usize, 1, k - 1] {
+            blocks.push(c.rng().random_range(0..=nb));
+        }
+        for b in blocks {
+            for d in [0usize, 1, k / 2, k - 1] {
                 if b * k + d <= n {
                     s.push(b * k + d);
                 }
             }
+        }
+        for _ in 0..40 {
             s.push(c.rng().random_range(0..=n));
         }
         s.sort_unstable();
         s.dedup();
         s
     };
+    // when positions are sampled, a walk covers a few blocks only (two
+    // sampled starts still walk to the end)
+    let full = o.all_starts || n <= 64;
+    let limit = if full { usize::MAX } else { (2 * k + 5).min(3000) };
+    let full_walk_from = if full { usize::MAX } else { starts[c.rng().random_range(0..starts.len())] };
     let mut ok_i = true;
     let mut ok_l = true;
     for &j in &starts {
-        if reserved_start(n, k, j) {
-            continue;
-        }
-        if ok_i {
+        // start = len with len % k == 0 (the position that used to index a
+        // nonexistent block) keeps its own op name and never stops the walk
+        // over the other positions
+        let aligned_end = reserved_start(n, k, j);
+        let (op_i, op_l) = if aligned_end { ("iter_from_len", "lend_from_len") } else { ("iter_from", "lend_from") };
+        let lim = if j == full_walk_from { usize::MAX } else { limit };
+        if ok_i || aligned_end {
             match catch(|| {
                 let mut it = l.iter_from(j);
-                check_iter_from(c, "iter_from", &format!("iter_from({})", j), &mut it, model, k, j)
+                check_iter_from(c, op_i, &format!("iter_from({})", j), &mut it, model, k, j, lim)
             }) {
-                Ok(ok) => ok_i = ok,
+                Ok(ok) => {
+                    if !aligned_end {
+                        ok_i = ok
+                    }
+                }
                 Err(m) => {
-                    c.fail("iter_from", "panic", &m, &format!("iter_from({}) panicked; {}", j, ctx_at(model, k, j)));
-                    ok_i = false;
+                    c.fail(op_i, "panic", &m, &format!("iter_from({}) panicked; {}", j, ctx_at(model, k, j)));
+                    if !aligned_end {
+                        ok_i = false;
+                    }
                 }
             }
         }
-        if ok_l {
-            match catch(|| check_lend_from(c, "lend_from", &format!("lend_from({})", j), l.lend_from(j), model, k, j)) {
-                Ok(ok) => ok_l = ok,
+        if ok_l || aligned_end {
+            match catch(|| check_lend_from(c, op_l, &format!("lend_from({})", j), l.lend_from(j), model, k, j, lim)) {
+                Ok(ok) => {
+                    if !aligned_end {
+                        ok_l = ok
+                    }
+                }
                 Err(m) => {
-                    c.fail("lend_from", "panic", &m, &format!("lend_from({}) panicked; {}", j, ctx_at(model, k, j)));
-                    ok_l = false;
+                    c.fail(op_l, "panic", &m, &format!("lend_from({}) panicked; {}", j, ctx_at(model, k, j)));
+                    if !aligned_end {
+                        ok_l = false;
+                    }
                 }
             }
         }
@@ -791,7 +828,7 @@ fn main() {
     let small = ctx.small;
 
     // 1. the empty list — every way of starting an iteration in its own case
-    for k in [1usize, 2, 4, 64] {
+    for k in if small { vec![1usize, 4] } else { vec![1usize, 2, 4, 64] } {
         for op in ["iter_on_empty", "lend_on_empty", "iter_from_0_on_empty", "lend_from_0_on_empty", "into_iter_on_empty"] {
             ctx.case("sorted", "empty-list", op, |c| {
                 let model: Vec<String> = vec![];
@@ -806,18 +843,18 @@ fn main() {
                 let r = catch(|| match op {
                     "iter_on_empty" => {
                         let mut it = l.iter();
-                        check_iter_from(c, op, call, &mut it, &model, k, 0)
+                        check_iter_from(c, op, call, &mut it, &model, k, 0, usize::MAX)
                     }
                     "iter_from_0_on_empty" => {
                         let mut it = l.iter_from(0);
-                        check_iter_from(c, op, call, &mut it, &model, k, 0)
+                        check_iter_from(c, op, call, &mut it, &model, k, 0, usize::MAX)
                     }
                     "into_iter_on_empty" => {
                         let mut it = (&l).into_iter();
-                        check_iter_from(c, op, call, &mut it, &model, k, 0)
+                        check_iter_from(c, op, call, &mut it, &model, k, 0, usize::MAX)
                     }
-                    "lend_on_empty" => check_lend_from(c, op, call, l.lend(), &model, k, 0),
-                    _ => check_lend_from(c, op, call, l.lend_from(0), &model, k, 0),
+                    "lend_on_empty" => check_lend_from(c, op, call, l.lend(), &model, k, 0, usize::MAX),
+                    _ => check_lend_from(c, op, call, l.lend_from(0), &model, k, 0, usize::MAX),
                 });
                 if let Err(m) = r {
                     c.fail(op, "panic", &m, &format!("RearCodedListBuilder::new({}).build().{} panicked (empty list)", k, call));
@@ -846,19 +883,25 @@ fn main() {
                 if small && n > 16 {
                     continue;
                 }
+                if small && m == 3 {
+                    continue;
+                }
                 for (ci, content) in [Content::Words, Content::SharedPrefix, Content::Utf8Multibyte, Content::AllEmpty].into_iter().enumerate() {
+                    if small && ci % 2 != m % 2 {
+                        continue;
+                    }
                     let order = Order::ALL[(ci + m) % 4];
                     for op in ["iter_from_len", "lend_from_len"] {
                         ctx.case(order.name(), "from-len-block-aligned", op, |c| {
-                            let base = gen_content(c.rng(), content, n);
+                            let base = gen_content(c.rng(), content, n, small);
                             let model = order.apply(c.rng(), base);
                             let Some(l) = build(c, &model, k, false) else { return };
                             let r = catch(|| {
                                 if op == "iter_from_len" {
                                     let mut it = l.iter_from(n);
-                                    check_iter_from(c, op, &format!("iter_from({})", n), &mut it, &model, k, n)
+                                    check_iter_from(c, op, &format!("iter_from({})", n), &mut it, &model, k, n, usize::MAX)
                                 } else {
-                                    check_lend_from(c, op, &format!("lend_from({})", n), l.lend_from(n), &model, k, n)
+                                    check_lend_from(c, op, &format!("lend_from({})", n), l.lend_from(n), &model, k, n, usize::MAX)
                                 }
                             });
                             if let Err(msg) = r {
@@ -894,18 +937,20 @@ fn main() {
             ("unsorted-in-block-only", vec!["a", "c", "b", "d", "e", "f", "g", "h"]),
             ("unsorted-at-head-only", vec!["a", "b", "c", "d", "a", "b", "c", "d"]),
         ];
-        let ks: &[usize] = if small { &[1, 2, 4] } else { &[1, 2, 3, 4, 5, 8, 16, 64] };
+        let ks: &[usize] = if small { &[2, 4] } else { &[1, 2, 3, 4, 5, 8, 16, 64] };
         for (name, lst) in &lists {
             let mut kk: Vec<usize> = ks.to_vec();
-            kk.push(lst.len().max(1));
-            kk.push(lst.len() + 1);
+            if !small {
+                kk.push(lst.len().max(1));
+                kk.push(lst.len() + 1);
+            }
             kk.sort_unstable();
             kk.dedup();
             for &k in &kk {
                 let model: Vec<String> = lst.iter().map(|s| s.to_string()).collect();
                 let sorted = model.windows(2).all(|w| w[0] <= w[1]);
                 ctx.case(if sorted { "sorted" } else { "shuffled" }, &format!("hand/{}", name), "list", |c| {
-                    check_list(c, &model, k, &Opts { all_starts: true, probe_budget: 100, via_extend: k % 2 == 0 });
+                    check_list(c, &model, k, &Opts { all_starts: true, probe_budget: if small { 4 } else { 100 }, via_extend: k % 4 == 0 });
                     finish_case(c, &format!("hand/{}", name), if sorted { "sorted" } else { "unsorted" }, &model, k, "");
                 });
             }
@@ -915,7 +960,7 @@ fn main() {
     // 4. rear lengths on the VByte boundaries, at every offset of a block
     //    and across a block head
     {
-        let mut rears: Vec<usize> = vec![0, 1, 126, 127, 128, 129, 255, 256, 383, 384];
+        let mut rears: Vec<usize> = if small { vec![0, 127, 128, 129] } else { vec![0, 1, 126, 127, 128, 129, 255, 256, 383, 384] };
         if !small {
             rears.extend([16_383, 16_384, 16_511, 16_512, 16_513, 16_640, 32_767, 32_768, 65_535, 65_536]);
         }
@@ -924,20 +969,20 @@ fn main() {
         }
         for &rear in &rears {
             let big = rear > 100_000;
-            let pads: &[usize] = if big { &[0, 1, 3] } else if small { &[0, 1, 2, 3] } else { &[0, 1, 2, 3, 4, 7] };
+            let pads: &[usize] = if big { &[0, 1, 3] } else if small { &[0, 2] } else { &[0, 1, 2, 3, 4, 7] };
             for &pad in pads {
-                let ks: &[usize] = if big { &[4] } else if small { &[2, 4] } else { &[1, 2, 3, 4, 8] };
+                let ks: &[usize] = if big || small { &[4] } else { &[1, 2, 3, 4, 8] };
                 for &k in ks {
                     for order in [Order::Sorted, Order::SortedExceptLast] {
                         for prefix in ["m", "p€"] {
-                            if big && (order != Order::Sorted) != (prefix == "m") {
+                            if (big || small) && (order != Order::Sorted) != (prefix == "m") {
                                 continue;
                             }
                             let stratum = format!("rear-length/{}", rear);
                             ctx.case(order.name(), &stratum, "list", |c| {
                                 let base = rear_boundary_list(rear, pad, prefix);
                                 let model = if order == Order::Sorted { base } else { order.apply(c.rng(), base) };
-                                check_list(c, &model, k, &Opts { all_starts: !big, probe_budget: if big { 8 } else { 40 }, via_extend: pad % 2 == 1 });
+                                check_list(c, &model, k, &Opts { all_starts: !big, probe_budget: if big || small { 6 } else { 40 }, via_extend: pad % 2 == 1 });
                                 let n = model.len();
                                 c.nontrivial();
                                 c.set_cell(format!("rear-length/{}|{}|k={}|pair-at-offset-{}|{}", rear, order.name(), k, (pad + 1) % k, n_class(n, k)));
@@ -953,33 +998,40 @@ fn main() {
     // 5. content x order x k x n grid
     {
         let ks: &[usize] = if small { &[1, 3, 4] } else { &[1, 2, 3, 4, 5, 8, 16, 64] };
-        for content in Content::ALL {
-            for order in Order::ALL {
-                for &k in ks {
+        for (ci, content) in Content::ALL.into_iter().enumerate() {
+            for (oi, order) in Order::ALL.into_iter().enumerate() {
+                for (ki, &k) in ks.iter().enumerate() {
                     let mut ns: Vec<usize> = vec![1, k.saturating_sub(1), k, k + 1, 2 * k - 1, 2 * k, 2 * k + 1, 3 * k, 3 * k + 2];
                     if small {
-                        ns.retain(|&n| n <= 16);
+                        // Miri: one order per (content, k), three list lengths
+                        if (ci + ki) % 4 != oi {
+                            continue;
+                        }
+                        ns = vec![k.max(2), k + 1, 2 * k + 1];
                     }
                     ns.retain(|&n| n >= 1);
                     ns.sort_unstable();
                     ns.dedup();
                     for &n in &ns {
                         ctx.case(order.name(), content.name(), "list", |c| {
-                            let base = gen_content(c.rng(), content, n);
+                            let base = gen_content(c.rng(), content, n, small);
                             let model = order.apply(c.rng(), base);
                             let via = c.rng().random_bool(0.25);
-                            check_list(c, &model, k, &Opts { all_starts: true, probe_budget: 250, via_extend: via });
+                            check_list(c, &model, k, &Opts { all_starts: true, probe_budget: if small { 5 } else { 250 }, via_extend: via });
                             finish_case(c, content.name(), order.name(), &model, k, if via { "built-with-extend " } else { "" });
                         });
                     }
                 }
                 // k = n and k = n + 1 (a single, possibly incomplete block)
-                for &n in if small { &[2usize, 5][..] } else { &[2usize, 5, 17, 100][..] } {
+                if small && ci % 4 != oi {
+                    continue;
+                }
+                for &n in if small { &[5usize][..] } else { &[2usize, 5, 17, 100][..] } {
                     for k in [n, n + 1] {
                         ctx.case(order.name(), content.name(), "list", |c| {
-                            let base = gen_content(c.rng(), content, n);
+                            let base = gen_content(c.rng(), content, n, small);
                             let model = order.apply(c.rng(), base);
-                            check_list(c, &model, k, &Opts { all_starts: true, probe_budget: 250, via_extend: false });
+                            check_list(c, &model, k, &Opts { all_starts: true, probe_budget: if small { 5 } else { 250 }, via_extend: false });
                             finish_case(c, content.name(), order.name(), &model, k, "");
                         });
                     }
@@ -999,7 +1051,7 @@ fn main() {
                 for order in [Order::Sorted, Order::Shuffled, Order::SortedExceptLast] {
                     for k in [1usize, 4, 7, 64, 1000] {
                         ctx.case(order.name(), &format!("large/{}", content.name()), "list", |c| {
-                            let base = gen_content(c.rng(), content, n);
+                            let base = gen_content(c.rng(), content, n, false);
                             let model = order.apply(c.rng(), base);
                             // the scan path is O(n) per probe: fewer probes when unsorted
                             let pb = if order == Order::Sorted { 400 } else { 40 };
@@ -1013,12 +1065,12 @@ fn main() {
     }
 
     // 7. random rounds
-    let rounds = ctx.scale(30, 12_000, 150_000);
+    let rounds = ctx.scale(8, 12_000, 150_000);
     for _ in 0..rounds {
         for order in Order::ALL {
             ctx.case(order.name(), "random", "list", |c| {
                 let content = Content::ALL[c.rng().random_range(0..Content::ALL.len())];
-                let nmax = if small { 20 } else { 160 };
+                let nmax = if small { 12 } else { 160 };
                 let n = match c.rng().random_range(0..10) {
                     0 => c.rng().random_range(1..=4),
                     _ => c.rng().random_range(1..=nmax),
@@ -1028,21 +1080,21 @@ fn main() {
                     1 => n + 1,
                     2 => 1,
                     3..=6 => c.rng().random_range(1..=8),
-                    _ => c.rng().random_range(1..=70),
+                    _ => c.rng().random_range(1..=if small { 8 } else { 70 }),
                 };
-                let mut base = gen_content(c.rng(), content, n);
+                let mut base = gen_content(c.rng(), content, n, small);
                 // sometimes mix in strings of a second kind
                 if c.rng().random_bool(0.2) {
                     let other = Content::ALL[c.rng().random_range(0..Content::ALL.len())];
                     let m = c.rng().random_range(0..=n);
-                    let extra = gen_content(c.rng(), other, m);
+                    let extra = gen_content(c.rng(), other, m, small);
                     for (i, s) in extra.into_iter().enumerate() {
                         base[i] = s;
                     }
                 }
                 let model = order.apply(c.rng(), base);
                 let via = c.rng().random_bool(0.2);
-                check_list(c, &model, k, &Opts { all_starts: true, probe_budget: 200, via_extend: via });
+                check_list(c, &model, k, &Opts { all_starts: true, probe_budget: if small { 5 } else { 200 }, via_extend: via });
                 finish_case(c, &format!("random/{}", content.name()), order.name(), &model, k, if via { "built-with-extend " } else { "" });
             });
         }
